@@ -136,6 +136,12 @@ func TestVerifC01b(t *testing.T) {
 		st, _ := newReceiver()
 		register(st)
 		r, pan := open(st, env)
+		for again := 0; again < 2 && pan == nil && !r.ok; again++ {
+			if r2, p2 := open(st, env); p2 != nil || r2.ok {
+				r, pan = r2, p2
+				kind += "-on-reread"
+			}
+		}
 		outcome := "rejected"
 		if pan != nil {
 			outcome = "panic"
